@@ -242,6 +242,8 @@ func gradleBlock(l *layout, kind string) string {
 		return "group = 'com.example.app'" + nl + "version = '1.0.0'" + nl + "sourceCompatibility = JavaVersion.VERSION_11" + nl
 	case "repositories":
 		return "repositories {" + nl + i1 + "mavenCentral()" + nl + i1 + "jcenter()" + nl + "}" + nl
+	case "repourl": // a URL inside a string literal: its `//` is not a comment
+		return "repositories {" + nl + i1 + "maven {" + nl + i2 + "url 'https://repo.spring.io/milestone'" + nl + i1 + "}" + nl + i1 + "maven { url \"http://nexus.local//repo\" }" + nl + "}" + nl
 	case "buildscript":
 		return "buildscript {" + nl + i1 + "repositories {" + nl + i2 + "mavenCentral()" + nl + i1 + "}" + nl + i1 + "dependencies {" + nl + i2 + "classpath 'org.buildscript.only:build-plugin:1.0'" + nl + i1 + "}" + nl + "}" + nl
 	case "configurations":
